@@ -24,7 +24,7 @@ NOW = '2024-05-06T07:08:09'
 DAYS = [None, 0, 1, 2, 7, 365, 4000000]
 CLASSES = ['lim-1s', 'lim', 'lim+1s', 'now', 'farpast', 'future', 'missing', 'garbage', 'emptyval', 'feb30', 'fraction',
            'trailsp', 'unpadded', 'two:old,bad', 'two:bad,old']
-TDS = ['home', 'top', 'alt', 'mixed', 'mixed-after-insecure']
+TDS = ['home', 'top', 'alt', 'mixed', 'mixed-after-insecure', 'tdopt-dotdot']
 
 
 def dimensions(tier):
@@ -66,7 +66,7 @@ def date_lines(cls, days):
 
 def run_case(c):
     uid = 0
-    tdmap = {'home': scen.HOME_TRASH, 'top': '/mnt/v1/.Trash/0', 'alt': '/mnt/v1/.Trash-0'}
+    tdmap = {'home': scen.HOME_TRASH, 'top': '/mnt/v1/.Trash/0', 'alt': '/mnt/v1/.Trash-0', 'tdopt-dotdot': '/mnt/v1/old'}
     td = tdmap.get(c['td'], scen.HOME_TRASH)
     tds = [td] if not c['td'].startswith('mixed') else [scen.HOME_TRASH, '/mnt/v1/.Trash-0', '/mnt/v1/.Trash/0']
     W = scen.base_world(mounts=['/', '/mnt/v0', '/mnt/v1'] if c['td'] == 'mixed-after-insecure' else ['/', '/mnt/v1'], cwd='/')
@@ -99,6 +99,11 @@ def run_case(c):
         W.file(t + '/files/orphan', 'orphan payload\n')
         W.file(t + '/info/README', 'not a trashinfo\n')
     argv = ['trash-empty'] + (['-i'] if c.get('ask') else []) + ([str(c['days'])] if c['days'] is not None else [])
+    if c['td'] == 'tdopt-dotdot':
+        # the directory is named as --trash-dir LINK/../old (LINK -> /mnt/v1/data); where a lexical collapse would point there is a look-alike with one old entry
+        W.dir('/mnt/v1/data').link('/home/u/usb', '/mnt/v1/data')
+        scen.add_trashed(W, '/home/u/old', 'look', '/home/u/w/look', '1990-01-01T00:00:00', tag='look-alike')
+        argv += ['--trash-dir', '/home/u/usb/../old']
     env = dict(W.env)
     now = NOW
     if c['seam'] == 'env':
